@@ -693,7 +693,10 @@ func c07(r *core.Run) {
 				o.Fail(p.Pos(f.Pos()), "%s does not size the worker pool", name)
 			}
 			for _, c := range cs {
-				if !core.IsLenOf(core.IsParam("fns"))(c.Common().Args[0]) {
+				if !core.IsLenOf(func(v ssa.Value) bool {
+					pa, ok := core.Strip(core.Forward(core.Strip(v))).(*ssa.Parameter)
+					return ok && pa.Parent() != nil && len(pa.Parent().Params) > 0 && pa == pa.Parent().Params[len(pa.Parent().Params)-1]
+				})(c.Common().Args[0]) {
 					o.Fail(p.InstrPos(c), "%s runs with %s workers instead of len(fns)", name, core.Describe(c.Common().Args[0]))
 				}
 			}
